@@ -46,6 +46,7 @@ fn main() {
         i += 1;
     }
     vh::install_panic_hook();
+    vh::start_watchdog(&id);
     let mut ctx = Ctx::new(&id, tier, seed);
     if let Some(path) = replay {
         if !props::replay_file(&mut ctx, &path) {
